@@ -3,6 +3,7 @@ Spec: Live.tla (explicit-time model of liveRequestGenerator: passes, rescan time
 LiveTrace.tla (the same clauses on events and times recorded from the real NewLiveRequestGenerator)."""
 import os
 import vf
+from checks import wire_tier as wt
 
 LEVEL = "model_checking"
 LEVEL_TEXT = ("TLC checks Live (2 addresses, interval 2 ticks, 3 passes, delegate failing on any pass, cancel anywhere, every timing): PassExact per pass, "
@@ -41,6 +42,9 @@ def run(ctx):
     vf.write_ndjson(trace, events)
     n, _ = vf.validate_runs(ctx, "LiveTrace", trace, keyfn=lambda run, evt: "live:%s:%s" % (evt.get("ev"), evt.get("what", "")), label="live generator")
     ctx.count(0, [("run", i) for i in range(n)])
+    # socket-level tier: `sx arp --live` on the wire until Ctrl-C: passes, rescan gap, de-duplicated output
+    n3, rej = wt.run_wire(ctx, select=lambda s: s["name"] == "arp-live", label="c19w", focus="live")
+    wt.report(ctx, "C19", rej)
     for r0 in vf.split_runs(events)[:3]:
         ctx.sample(r0[:40])
     ctx.assumptions += ["bounds: passes must keep coming within want*(interval+pass time)+20 s; the stream must close within 10 s of cancel"]
